@@ -112,6 +112,14 @@ func (bq *Queue[Q]) Run() {
 			if b == bq.nilQ {
 				break
 			}
+			if b.GetIndex() > h+1 {
+				// The chain has moved past h since it was read and this slot was
+				// refilled for the next ring turn: it's not this element's turn.
+				if bq.chain.Height() == h {
+					break
+				}
+				continue
+			}
 
 			err := bq.chain.AddItem(b)
 			if err != nil {
